@@ -91,7 +91,7 @@ end
 
 /-- the hand transcription of `chained_logic` the binary surface language of `Model/Eql.lean` stands for: n-ary
 `and_`/`or_` nest to the left, `in_(item, container)` is `contains(container, item)` -/
-def chainS (f : SExpr → SExpr → SExpr) (a : SExpr) (es : List SExpr) : SExpr := es.foldl f a
+def foldChainS (f : SExpr → SExpr → SExpr) (a : SExpr) (es : List SExpr) : SExpr := es.foldl f a
 
 mutual
 def Surface.toS : Surface → SExpr
@@ -100,8 +100,8 @@ def Surface.toS : Surface → SExpr
   | .isIn i c => .contains c i
   | .truth x => .truth x
   | .hasType x c => .hasType x c
-  | .andN f r => chainS .and f.toS r.toS
-  | .orN f r => chainS .or f.toS r.toS
+  | .andN f r => foldChainS .and f.toS r.toS
+  | .orN f r => foldChainS .or f.toS r.toS
   | .amp l r => .and l.toS r.toS
   | .bar l r => .or l.toS r.toS
   | .not e => .not e.toS
@@ -112,15 +112,15 @@ def SList.toS : SList → List SExpr
   | .cons e r => e.toS :: r.toS
 end
 
-theorem build_chain_and (es : List SExpr) : ∀ a, build (chainS .and a es) = (es.map build).foldl .and (build a) := by
+theorem build_chain_and (es : List SExpr) : ∀ a, build (foldChainS .and a es) = (es.map build).foldl .and (build a) := by
   induction es with
   | nil => intro a; rfl
-  | cons e r ih => intro a; simp only [chainS, List.foldl_cons, List.map_cons] at ih ⊢; rw [ih]; rfl
+  | cons e r ih => intro a; simp only [foldChainS, List.foldl_cons, List.map_cons] at ih ⊢; rw [ih]; rfl
 
-theorem build_chain_or (es : List SExpr) : ∀ a, build (chainS .or a es) = (es.map build).foldl mkOr (build a) := by
+theorem build_chain_or (es : List SExpr) : ∀ a, build (foldChainS .or a es) = (es.map build).foldl mkOr (build a) := by
   induction es with
   | nil => intro a; rfl
-  | cons e r ih => intro a; simp only [chainS, List.foldl_cons, List.map_cons] at ih ⊢; rw [ih]; rfl
+  | cons e r ih => intro a; simp only [foldChainS, List.foldl_cons, List.map_cons] at ih ⊢; rw [ih]; rfl
 
 theorem mkBin_rewrites_optOr : mkBin rewrites.orRule .optOr = mkOr := by
   funext l r; exact mkOrWith_rewrites l r
@@ -164,8 +164,8 @@ end
 
 theorem toS_ofS (s : SExpr) : (Surface.ofS s).toS = s := by
   induction s with
-  | and l r ihl ihr => simp only [Surface.ofS, Surface.toS, SList.toS, chainS, List.foldl_cons, List.foldl_nil, ihl, ihr]
-  | or l r ihl ihr => simp only [Surface.ofS, Surface.toS, SList.toS, chainS, List.foldl_cons, List.foldl_nil, ihl, ihr]
+  | and l r ihl ihr => simp only [Surface.ofS, Surface.toS, SList.toS, foldChainS, List.foldl_cons, List.foldl_nil, ihl, ihr]
+  | or l r ihl ihr => simp only [Surface.ofS, Surface.toS, SList.toS, foldChainS, List.foldl_cons, List.foldl_nil, ihl, ihr]
   | not e ih => simp only [Surface.ofS, Surface.toS, ih]
   | exists_ v e ih => simp only [Surface.ofS, Surface.toS, ih]
   | forAll v e ih => simp only [Surface.ofS, Surface.toS, ih]
@@ -196,25 +196,25 @@ theorem satS_toS (w : World) : ∀ (e : Surface) (σ : Asg), satS w e σ = sat w
   | .forAll v e, σ => by
     simp only [satS, Surface.toS, sat]; congr 1; funext x; exact satS_toS w e _
 theorem satListL_toS_and (w : World) : ∀ (r : SList) (σ : Asg) (a : SExpr),
-    (do let x ← sat w a σ; satListL w (· && ·) r σ x) = sat w (chainS .and a r.toS) σ
+    (do let x ← sat w a σ; satListL w (· && ·) r σ x) = sat w (foldChainS .and a r.toS) σ
   | .nil, σ, a => by
-    simp only [satListL, SList.toS, chainS, List.foldl_nil]; cases sat w a σ <;> rfl
+    simp only [satListL, SList.toS, foldChainS, List.foldl_nil]; cases sat w a σ <;> rfl
   | .cons e r, σ, a => by
-    simp only [satListL, SList.toS, chainS, List.foldl_cons, satS_toS w e σ]
+    simp only [satListL, SList.toS, foldChainS, List.foldl_cons, satS_toS w e σ]
     have := satListL_toS_and w r σ (.and a e.toS)
-    simp only [chainS, sat] at this
+    simp only [foldChainS, sat] at this
     rw [← this]
     cases sat w a σ with
     | error err => rfl
     | ok x => cases sat w e.toS σ <;> rfl
 theorem satListL_toS_or (w : World) : ∀ (r : SList) (σ : Asg) (a : SExpr),
-    (do let x ← sat w a σ; satListL w (· || ·) r σ x) = sat w (chainS .or a r.toS) σ
+    (do let x ← sat w a σ; satListL w (· || ·) r σ x) = sat w (foldChainS .or a r.toS) σ
   | .nil, σ, a => by
-    simp only [satListL, SList.toS, chainS, List.foldl_nil]; cases sat w a σ <;> rfl
+    simp only [satListL, SList.toS, foldChainS, List.foldl_nil]; cases sat w a σ <;> rfl
   | .cons e r, σ, a => by
-    simp only [satListL, SList.toS, chainS, List.foldl_cons, satS_toS w e σ]
+    simp only [satListL, SList.toS, foldChainS, List.foldl_cons, satS_toS w e σ]
     have := satListL_toS_or w r σ (.or a e.toS)
-    simp only [chainS, sat] at this
+    simp only [foldChainS, sat] at this
     rw [← this]
     cases sat w a σ with
     | error err => rfl
